@@ -130,16 +130,19 @@ def _validate(ck, sw, name, beh, label, mode="", seed=1):
 def _ctorfail(ck, sw):
     trace = os.path.join(ck.work, "trace_ctorfail.ndjson")
     label = "constructor failure points (vm.max_map_count)"
-    try:
-        summ, out = vlib.run_replay(["mirror", "-mode", "ctorfail", "-out", trace], timeout=300, check=False)
-    except vlib.Inconclusive as e:
-        summ, out = None, str(e)
+    summ, out, attempts = None, "", 0
+    while not summ and attempts < 3:       # the probe process sits at the kernel's mapping limit: it may die there
+        attempts += 1
+        try:
+            summ, out = vlib.run_replay(["mirror", "-mode", "ctorfail", "-out", trace], timeout=300)
+        except vlib.Inconclusive as e:
+            summ, out = None, str(e)
     if not summ:
-        ck.cov["ctor_failure_probe"] = {"status": "unavailable", "detail": out[-400:]}
+        ck.cov["ctor_failure_probe"] = {"status": "unavailable", "attempts": attempts, "detail": out[-600:]}
         return
     bads, r = vlib.validate_trace(sw, "MirrorMonTrace", "MirrorMonTrace.cfg", trace, timeout=300, parallel=1)
-    ck.cov["ctor_failure_probe"] = dict(summ.get("notes") or {}, status="ran", calls=summ["scenarios"],
-                                        rejected=len(bads))
+    ck.cov["ctor_failure_probe"] = dict(summ.get("notes") or {}, status="ran", attempts=attempts,
+                                        calls=summ["scenarios"], rejected=len(bads))
     ck.cov["evaluations"] += summ["scenarios"]
     ck.cov["traces_validated_against_impl"] += summ["scenarios"] - len({b[0] for b in bads})
     for sid, i, key in bads:
